@@ -31,8 +31,6 @@ def getQuant (j : Json) (k : String) : Except String (Option (T → T)) := do
     let c : BitsCfg := { bits := b, integer := i, symmetric := sy, keepNeg := kn, alpha := none }
     pure (some (List.map (qbits .even c)))
 
-def relu (v : T) : T := v.map fun q => if q < 0 then 0 else q
-
 def getAct (j : Json) : Except String (Option (T → T)) := do
   match (getStr j "act").toOption with
   | none => pure none
@@ -125,16 +123,20 @@ def handle (j : Json) : Except String Json := do
     -- reference: stock conv (no quantizers, linear) followed by stock batch norm
     let P0 : Plain := { cfg := L.cfg, kernel := L.kernel, bias := L.bias, qk := none, qb := none, act := none }
     let ref := L.bn.infer rs L.cfg.cout (P0.call x)
-    -- magnitude of the un-quantized folded computation, for the stated float tolerance
-    let mag : Option T := fw.map fun (fk, fb) =>
-      biasAdd L.cfg.cout (convOp L.cfg (absT x) (absT fk)) (absT fb)
+    -- magnitude (sum of absolute values of all terms) of the un-quantized folded computation,
+    -- for the stated float tolerance
+    let inv := mulGamma L.bn.gamma (rsqrtVec rs L.bn.var L.bn.eps)
+    let magb : Option T := foldedBias L.cfg.cout (absT inv) (L.bias.map absT)
+      (L.bn.mean.map fun m => if m < 0 then m else -m) (L.bn.beta.map absT)
+    let mag : Option T := fw.bind fun (fk, _) => magb.map fun mb =>
+      biasAdd L.cfg.cout (convOp L.cfg (absT x) (absT fk)) mb
     pure <| Json.mkObj [
       ("y", optRats y),
       ("fk", optRats (fw.map (·.1))), ("fb", optRats (fw.map (·.2))),
       ("qfk", optRats (fw.map fun w => applyOpt L.qk w.1)), ("qfb", optRats (fw.map fun w => applyOpt L.qb w.2)),
       ("uk", optRats (un.map (·.kernel))), ("ub", optRats (un.bind (·.bias))),
       ("uy", optRats (un.map fun P => P.call x)),
-      ("ref", rats ref), ("mag", optRats mag),
+      ("ref", rats ref), ("mag", optRats mag), ("magb", optRats magb),
       ("oh", Json.num (L.cfg.g.oh : Int)), ("ow", Json.num (L.cfg.g.ow : Int)), ("cout", Json.num (L.cfg.cout : Int))]
   | "graph" =>
     -- a layer DAG: fold-site selection, classes after model_quantize, and the network function
